@@ -107,8 +107,8 @@ PROPS["C15"] = {
                 ["NsyncVerif.Futex." + t for t in ["C12_timeout_real", "C12_post_kept_on_timeout", "C12_future_timed_wait_returns"]],
     "layers": ["deadline"], "engine": "realplat",
     "realplat": True,
-    "family_layers": {"timed_contended": ["cv", "muc", "mux"], "cancel_only": ["cv", "muc", "mux"], "waitn_rep": ["waitn", "cv", "mux"]},
-    "plan": {"quick": [("timed_contended", 120, 10), ("waitn_rep", 40, 6)], "thorough": [("timed_contended", 1500, 20), ("waitn_rep", 400, 12)]},
+    "family_layers": {"timed_contended": ["cv", "muc", "mux"], "cancel_only": ["cv", "muc", "mux"], "waitn_rep": ["waitn", "cv", "mux"], "waitn": ["waitn", "cv", "mux"]},
+    "plan": {"quick": [("timed_contended", 120, 10), ("waitn_rep", 40, 6), ("waitn", 100, 8)], "thorough": [("timed_contended", 1500, 20), ("waitn_rep", 400, 12), ("waitn", 1000, 16)]},
     "harness_args": ["checkplain=1"],
     "oracles": {"deadline", "stuck", "steplimit", "early-timeout", "bad-result", "muwait-result", "crash", "panic", "waitn-ready", "waitn-missed"},
     "level_text": "Kernel-checked theorems over the Deadline/Time/Futex models: for every deadline value the timespec handed to the kernel satisfies the futex contract (no EINVAL, so the ASSERT cannot fire), a pre-epoch deadline is clamped to an instant that is still expired and the library's re-check then reports ETIMEDOUT, no_deadline (and only it) means no timeout, classification expired/future agrees with integer time, nsync_wait_n short-circuits exactly the deadlines at or before zero; no early timeout and an expired deadline needs no wake-up for the semaphore (C12 theorems). Tied to the code by the real-platform probe: every timed entry point x the property's boundary set of deadlines x {C build, C++ build}, one child process per case on the real futex/kernel; the observed outcome class (prompt timeout / timeout at deadline / event / crash / hang) must equal the model's.",
@@ -165,7 +165,8 @@ PROPS["C14"] = {
     "layers": ["muq", "mux"],
     "tie": ["NsyncVerif.Proofs.TieConsts"],
     "oracles": {"stuck", "steplimit", "panic", "starved"},
-    "plan": {"quick": [("core", 150, 8), ("starve", 40, 10)], "thorough": [("core", 1500, 16), ("starve", 400, 20)]},
+    "plan": {"quick": [("core", 150, 8), ("starve", 40, 10), ("starve_cv", 40, 10), ("starve_mix", 20, 8)], "thorough": [("core", 1500, 16), ("starve", 400, 20), ("starve_cv", 400, 20), ("starve_mix", 200, 12)]},
+    "family_layers": {"starve_cv": ["cv", "mux"], "starve_mix": ["muc", "mux"]},
     "level_text": "Kernel-checked theorems over the MuQ model: a thread inside lock_slow has its long-wait flag set exactly from its 30th wake-up on (C14_escalates); it then sets MU_LONG_WAIT in every enqueue and re-queues at the FRONT (C14_sets_bit, C14_requeue_front); while the bit (or, for fresh readers, MU_WRITER_WAITING) is set no step of a thread that has not itself waited acquires — fast paths, try-locks and lock_slow with clear = 0 (C14_blocks_fresh); the bit is cleared only by the acquiring CAS of a thread that itself escalated (C14_cleared_only_by_long_waiter); a woken thread is stopped only by real lock conflicts (C14_woken_ignores_hints). A directed corpus schedule drives the real library through 30 wake-ups of a victim and checks the same steps in lockstep; the harness measures the number of sleeps of a victim inside one lock call under adversarial barging.",
     "level_note": "The prose bound ('sent back to sleep only a bounded number of times') is proved as the mechanism above; with several escalated waiters one of them may clear the bit while another still sleeps (it re-raises it at its next enqueue), so the numeric bound is measured by the harness oracle (sleeps in one call <= 30 + number of fibers + margin), not proved in general.",
 }
@@ -218,7 +219,9 @@ PROPS["C08"] = {
     "layers": ["note", "mux"],
     "extra_corpus": ["C09"],
     "oracles": {"steplimit", "stuck", "expiry-min", "notify-post", "note-wait", "early-timeout", "panic", "crash", "dead-object"},
-    "plan": {"quick": [("note", 150, 8), ("note_f4", 30, 8), ("note_f4b", 20, 8)], "thorough": [("note", 1500, 16), ("note_f4", 300, 16), ("note_f4b", 200, 16)]},
+    "plan": {"quick": [("note", 150, 8), ("note_f4", 30, 8), ("note_f4b", 20, 8), ("cancel_only", 100, 10), ("cancel_children", 60, 10)],
+             "thorough": [("note", 1500, 16), ("note_f4", 300, 16), ("note_f4b", 200, 16), ("cancel_only", 1000, 20), ("cancel_children", 600, 20)]},
+    "family_layers": {"cancel_only": ["semwait", "cv", "muc", "mux"], "cancel_children": ["semwait", "mux"]},
     "harness_args": ["checkplain=1"],
     "level_text": "Kernel-checked theorems over the Note model (note.c and the wait path of nsync_note_wait statement by statement on a forest with parent/children/disconnecting/waiters, note mutexes abstract; unbounded notes, threads, depth, steps): the flag and the API-level 'notified' are one-way, COMPLETENESS (C08_complete: once a note is notified and no activation on it is in progress, its children list is empty and every descendant is notified; with C08_complete_released: every thread waiting on them has been released), every observer history is monotone, a notified note has a cause (notify called or a deadline passed on itself or an ancestor-at-some-time), notify's post-condition, ancestors are never affected, everything on a notifier's recursion stack is notified, and nsync_note_expiry returns the minimum of the creation deadlines on the creation-time path to the root for EVERY note, born notified or not (C08_expiry_min, C08_expiry_min_ret — for the code as repaired by afe43b7). Tied to the code by lockstep replay including a digest of the REAL note forest after every note API return, which the model must reproduce.",
     "level_note": "Every clause of the statement is now a theorem about the model of the CURRENT note.c. Three things were wrong on the pinned tree and are repaired in /repo: completeness (F4, adoption under an ancestor whose child scan was over — repaired by 0c53433: C08_complete, C08_complete_released, C08_complete_full_holds hold without any hypothesis about adoptions), the expiry clause (F5, notes born notified — afe43b7: C08_expiry_min), and the use-after-free F7 (8a33942, C09's subject). What the old code did is recorded by the …_old_code_witness theorems and by the corpus regressions. The expiry clause is about CREATION-time ancestors (C08_creation_path). 'Ancestors and siblings are unaffected' is proved w.r.t. the CURRENT forest (C08_unaffected_full_holds). 'Released' is the safety form (flag cleared and V performed or owed by an activation in progress); that P then returns is the semaphore's contract (C12). The new field children_adopted is not part of the forest digest the harness logs: a library that forgets to set it is caught by the stuck oracle, not by a REJECT. Monotone clock assumed."
@@ -242,7 +245,7 @@ PROPS["C19"] = {
     "theorems": ["Note.C19_note_new_fail", "Note.C19_parent_usable", "Counter.C19_counter_new_fail", "Counter.C19_counter_new_fail_no_access", "Counter.C19_counter_new_ok",
                  "Counter.Driver.C19_driver_new_fail"],
     "layers": ["note", "counter"],
-    "oracles": {"crash", "panic", "dead-object", "stuck"},
+    "oracles": {"steplimit", "crash", "panic", "dead-object", "stuck"},
     "plan": {"quick": [("alloc_fail", 120, 6)], "thorough": [("alloc_fail", 1200, 12)]},
     "level_text": "Kernel-checked theorems over the Note and Counter models: on the malloc-NULL path nsync_note_new / nsync_counter_new return NULL after zero further operations, the state of every existing object — in particular the intended parent — is exactly unchanged (s3 = s), and every continuation therefore runs identically (C19_parent_usable). Tied to the code by lockstep: scenarios that build small note trees and counters with the harness's fail-the-k-th-allocation switch failing each constructor allocation in turn (the forest digest before = after; the acceptors take the NULL branch).",
     "level_note": "Only the constructors' allocations are in scope (the property's quantifier): the waiter pool's unchecked malloc in common.c and nsync_wait_n's unchecked malloc for more than 4 objects are outside C19; scenarios in which the failed allocation is one of those are generated with the failure index restricted to constructor allocations.",
@@ -275,11 +278,11 @@ PROPS["C13"] = {
                 ["SemWait." + t for t in ["C13_cancel_record_touch", "C13_cancel_owner_access", "C13_cancel_owner_returns_clean", "C13_cancel_remove_safe"]] +
                 ["Pool." + t for t in ["Pool_exclusive", "Pool_exclusive_trace", "Pool_free_list_inv", "Pool_init", "Pool_remove_count_monotone", "Pool_reserved", "Pool_no_leak_partial", "Pool_client_checks"]],
     "layers": ["pool", "muq", "mux"],
-    "family_layers": {"refcount": ["pool", "muq", "mux"], "core": ["pool", "muq", "mux"], "waitn": ["pool", "waitn", "cv", "mux"], "waitn_rep": ["pool", "waitn", "cv", "mux"], "waitn_cv": ["pool", "waitn", "cv", "mux"],
+    "family_layers": {"note": ["pool", "note", "mux"], "note_wc": ["pool", "note", "mux"], "cancel_children": ["pool", "semwait", "mux"], "refcount": ["pool", "muq", "mux"], "core": ["pool", "muq", "mux"], "waitn": ["pool", "waitn", "cv", "mux"], "waitn_rep": ["pool", "waitn", "cv", "mux"], "waitn_cv": ["pool", "waitn", "cv", "mux"],
                       "waitn_f3": ["pool", "waitn", "cv", "mux"], "cv": ["pool", "semwait", "cv", "mux"], "muc": ["pool", "semwait", "muc", "mux"], "cancel_only": ["pool", "semwait", "cv", "muc", "mux"], "corpus": ["pool", "waitn", "cv", "mux"]},
     "oracles": {"dead-object", "dead-stack", "stuck", "steplimit", "panic", "crash", "exclusion", "exclusion-ann"},
-    "plan": {"quick": [("refcount", 150, 10), ("waitn", 100, 8), ("waitn_rep", 80, 8), ("waitn_f3", 60, 8), ("cv", 80, 8), ("muc", 40, 6), ("cancel_only", 80, 8), ("refcount@ps", 100, 10), ("waitn_rep@ps", 60, 8), ("cv@ps", 60, 8)],
-             "thorough": [("refcount", 1500, 20), ("waitn", 1000, 16), ("waitn_rep", 800, 16), ("waitn_f3", 600, 16), ("cv", 800, 16), ("muc", 400, 12), ("cancel_only", 800, 16), ("refcount@ps", 1000, 20), ("waitn_rep@ps", 600, 16), ("cv@ps", 600, 16)]},
+    "plan": {"quick": [("refcount", 150, 10), ("waitn", 100, 8), ("waitn_rep", 80, 8), ("waitn_f3", 60, 8), ("cv", 80, 8), ("muc", 40, 6), ("cancel_only", 80, 8), ("note", 60, 8), ("note_wc", 100, 10), ("cancel_children", 60, 10), ("refcount@ps", 100, 10), ("waitn_rep@ps", 60, 8), ("cv@ps", 60, 8)],
+             "thorough": [("refcount", 1500, 20), ("waitn", 1000, 16), ("waitn_rep", 800, 16), ("waitn_f3", 600, 16), ("cv", 800, 16), ("muc", 400, 12), ("cancel_only", 800, 16), ("note", 600, 16), ("note_wc", 1000, 20), ("cancel_children", 600, 20), ("refcount@ps", 1000, 20), ("waitn_rep@ps", 600, 16), ("cv@ps", 600, 16)]},
     "harness_args": ["checkplain=1"],
     "level_text": "Kernel-checked theorems: (mutex, MuQ model) once a thread inside nsync_mu_unlock / runlock / unlock_slow owns neither a share nor the spinlock, no later step of that call touches the mutex, and the step that crosses that point is a successful CAS on the word (C13_release_point, C13_release_is_last_needed): whoever acquires afterwards and frees the memory races with nothing; (cv, CvFix model of the repaired cv.c) every access to a waiter record by a thread other than its owner happens while the record is queued or on that waker's private list with its owner still inside the wait, for pooled records and for nsync_wait_n records alike, and the owner returns only after the record is on no list (C13_record_touch, C13_record_touch_nw_full_true, C13_owner_returns_clean[_waitn]); the V that follows the waker's last store touches no record (C13_late_V_touches_nothing); (nsync_wait_n, WaitN model) every access by a non-owner to a record of notes / counters / cvs is to a registered record, and at the return no record of the call is registered, queued or on a waker's list (C13_record_lifetime, C13_owner_returns_after); (cancellable cv / mu waits, SemWait model of sem_wait.c with the note-side walk of note.c) every access by a notifier to the on-stack record of nsync_sem_wait_with_cancel_ happens under the note's mutex with the record at the head of the note's list or just popped, while the owner is between its enqueue and the return of its final nsync_mu_lock (&note_mu), and the owner returns with the record on no list and no post owed (C13_cancel_record_touch, C13_cancel_owner_returns_clean). The waiter-pool contract all these layers assume is itself modelled and proved (Pool layer over common.c: a waiter struct is in use by at most one call at a time, the free list holds exactly the idle non-reserved structs and is touched only under its spinlock, `remove_count` / `waiting` / `flags` / `sem` are written by pool code only in the initialisation block — so remove_count is monotone across reuses —, a thread's reserved struct comes back to that thread: Pool_exclusive, Pool_free_list_inv, Pool_init, Pool_remove_count_monotone, Pool_reserved). Tied to the code by lockstep (refcount / waitn* / cv / muc families through the matching acceptors) and by the runtime's liveness tracking: every atomic AND plain access (TSan instrumentation) of every explored execution is checked against reclaimed heap blocks, reclaimed mutexes and dead stack records (oracles dead-object, dead-stack).",
     "level_note": "The SemWait layer models ONE flat cancel note per record (parents enter through an `inherit` event) and protocol-driven notifiers; the forest is the Note layer's business. Defect F3 (found by this property's oracle) is repaired in /repo; the pre-repair model and refutation are kept (Props/C13Cv.lean). Sampled correspondence.",
@@ -328,7 +331,7 @@ for k in ("C05", "C06", "C11", "C13"):
 # the ties of every layer it replays (incl. the per-family ones) and of the layers its theorems are about.
 LAYER_SRC = {"pool": "Pool", "muq": "Muq", "muc": "Muc", "cv": "Cv", "cvmu": "Cv", "waitn": "Waitn", "semwait": "Semwait", "note": "Note", "counter": "Counter",
              "once": "Once", "futex": "Futex", "time": "Time", "emit": "Emit", "dll": "Dll", "deadline": "Deadline"}
-EXTRA_SRC = {"C01": ["Muc"], "C03": ["Muq", "Note"], "C13": ["Muq"], "C15": ["Futex", "Time"], "C16": ["Emit"], "C17": ["Dll"], "C18": ["Time"], "C14": ["Muq"], "C02": ["Muq"]}
+EXTRA_SRC = {"C01": ["Muc"], "C03": ["Muq", "Note"], "C13": ["Muq", "Note"], "C08": ["Semwait"], "C15": ["Futex", "Time"], "C16": ["Emit"], "C17": ["Dll"], "C18": ["Time"], "C14": ["Muq", "Cv"], "C02": ["Muq"]}
 for _pid, _spec in PROPS.items():
     _ls = list(_spec.get("layers", []))
     for _v in _spec.get("family_layers", {}).values():
